@@ -860,3 +860,35 @@ Proof.
   - unfold T in *. lia.
   - intros c Hc. pose proof (max_child_ts_ge _ _ Hc). unfold T in *. lia.
 Qed.
+
+(* ------------------------------------------------------------------ *)
+(* statements used verbatim by Properties/C20.v                        *)
+
+Lemma pass_pointwise c now tbl lg :
+  NoDup (map a_id tbl) ->
+  fst (checker_pass c now tbl lg) = map (pass_row c now) tbl /\
+  snd (checker_pass c now tbl lg) = lg ++ map (hb_event now) (filter (due c now) tbl).
+Proof. intros H. split; [apply checker_pass_rows; exact H | apply checker_pass_log]. Qed.
+
+Lemma broken_or_fresh_untouched c now r :
+  (a_parent_ok r = false \/ expired c now r = false) -> pass_row c now r = r.
+Proof. intros [H|H]; [apply broken_row_skipped | apply pass_row_not_expired]; exact H. Qed.
+
+Lemma disabled_all c :
+  interval c * max_missed c = 0 ->
+  (forall now tbl lg, service_pass c now tbl lg = (tbl, lg)) /\
+  (forall t0 n, first_pass_at c t0 = None /\ nth_pass_at c t0 n = None) /\
+  (forall ops s, (forall e, In e (log s) -> e_kind e <> RHeartbeat) ->
+                 forall e, In e (log (run c ops s)) -> e_kind e <> RHeartbeat).
+Proof.
+  intros H. split; [|split].
+  - intros. apply service_disabled. exact H.
+  - intros. apply no_pass_when_disabled. exact H.
+  - intros ops s. apply disabled_never_expires. exact H.
+Qed.
+
+Lemma heartbeat_error_only_if_stale c ops s :
+  (forall e, In e (log s) -> ev_ok c e) ->
+  forall e, In e (log (run c ops s)) -> e_kind e = RHeartbeat ->
+  enabled c = true /\ exists h, e_hb e = Some h /\ h < e_at e - max_missed c * interval c.
+Proof. intros H e He. exact (stale_run c ops s H e He). Qed.
